@@ -60,6 +60,11 @@ theorem every_check_level_registered_independently :
        ["AtEachSolution", "SolutionViolationCheck", "IfStmt", "5"]] := by
   decide
 
+/-- C18: `check.SolutionCheck` plans and un-plans on a COPY of the solution it is given (the repair E39): whatever its
+probing leaves behind, the caller's solution is not the object it happened to — "never alters" then rests on C11 (a copy
+is independent of its original). -/
+theorem check_probes_a_copy : NR.Facts.checkProbes = "solution.Copy()" := by decide
+
 end NR.FactThms.ShapeFacts
 
 #print axioms NR.FactThms.ShapeFacts.helper_goroutines_draw_nothing
@@ -67,3 +72,4 @@ end NR.FactThms.ShapeFacts
 #print axioms NR.FactThms.ShapeFacts.single_solver_goroutine
 #print axioms NR.FactThms.ShapeFacts.budget_grab_is_one_atomic_add
 #print axioms NR.FactThms.ShapeFacts.every_check_level_registered_independently
+#print axioms NR.FactThms.ShapeFacts.check_probes_a_copy
